@@ -196,3 +196,10 @@ def r7(rr, repo):
 def r8(rr, repo):
     from .c04 import r9 as c04r9
     c04r9(rr, repo)
+
+
+@rule('C06.R9', "a lost publish is recovered by the consumer's repeated request: EVERY request message - also one that repeats the id of the previous request - marks its client as waiting again, so the publisher "
+                "answers a consumer whose last frame never arrived (shares C04.R1)")
+def r9(rr, repo):
+    from .c04 import r1 as c04r1
+    c04r1(rr, repo)
